@@ -209,7 +209,7 @@ Qed.
 
 Definition kept_cid (f : cfile) (es : list (bytes * N)) : list (bytes * N) :=
   match c_parent f with
-  | Some p => filter (fun e => negb (lookup_cid p (fst e) =? snd e)) es
+  | Some p => filter (fun e => negb (parent_maps p e)) es
   | None => es
   end.
 
@@ -266,23 +266,6 @@ Definition parent_opt (f : cfile) (c : bytes) : option N :=
   | None => None
   end.
 
-(* SetMapping leaves out an entry c -> v when Parent.LookupCID(c) = v.  If the parent chain does not map c,
-   that answer came from the PARENT's notdef entries; the new file then answers c with ITS OWN notdef
-   entries first.  The omission is safe when those agree: *)
-Definition omit_safe (f : cfile) (es : list (bytes * N)) : Prop :=
-  forall p, c_parent f = Some p ->
-  forall c v, In (c, v) es -> lookup_cid_opt p c = None -> lookup_notdef p c = v -> lookup_notdef f c = v.
-
-Lemma omit_safe_no_parent f es : c_parent f = None -> omit_safe f es.
-Proof. intros H p Hp. congruence. Qed.
-
-Lemma omit_safe_no_own_notdef f es :
-  c_nd_singles f = [] -> c_nd_ranges f = [] -> omit_safe f es.
-Proof.
-  intros H1 H2 p Hp c v _ _ Hv. destruct f as [csr ss rr nds ndr par]. cbn in H1, H2, Hp. subst.
-  reflexivity.
-Qed.
-
 Definition agree_cid (f : cfile) : Prop :=
   forall c, assoc_last (raw_all_cid f) c = lookup_cid_opt f c.
 
@@ -338,8 +321,24 @@ Proof.
   rewrite E1, E2, HL. reflexivity.
 Qed.
 
+(* what the chain loop of LookupCID finds: the map first, then the parent chain *)
+Lemma setmapping_lookup_chain_lemma csr f es c :
+  NoDup (map fst es) -> wf_entries N es -> cid_ok es ->
+  lookup_cid_opt (set_mapping_bytes csr f es) c =
+  match assoc es c with
+  | Some v => Some v
+  | None => parent_opt f c
+  end.
+Proof.
+  intros Hnd Hwf Hok. rewrite lookup_cid_opt_set_mapping_kept by assumption.
+  unfold kept_cid, parent_opt. destruct (c_parent f) as [p|] eqn:Ep; [|reflexivity].
+  rewrite assoc_filter by assumption. destruct (assoc es c) as [v|]; [|reflexivity].
+  unfold parent_maps. cbn [fst snd]. destruct (lookup_cid_opt p c) as [w|]; cbn [negb]; [|reflexivity].
+  destruct (w =? v) eqn:E; cbn [negb]; [|reflexivity]. apply N.eqb_eq in E. subst. reflexivity.
+Qed.
+
 Lemma setmapping_lookup_bytes_lemma csr f es c :
-  NoDup (map fst es) -> wf_entries N es -> cid_ok es -> omit_safe f es ->
+  NoDup (map fst es) -> wf_entries N es -> cid_ok es ->
   lookup_cid (set_mapping_bytes csr f es) c =
   match assoc es c with
   | Some v => v
@@ -349,36 +348,11 @@ Lemma setmapping_lookup_bytes_lemma csr f es c :
             end
   end.
 Proof.
-  intros Hnd Hwf Hok Hsafe. unfold lookup_cid.
-  rewrite lookup_cid_opt_set_mapping_kept by assumption.
+  intros Hnd Hwf Hok. unfold lookup_cid.
+  rewrite setmapping_lookup_chain_lemma by assumption.
   assert (End : lookup_notdef (set_mapping_bytes csr f es) c = lookup_notdef f c)
     by (unfold set_mapping_bytes; apply lookup_notdef_same).
-  rewrite End. unfold kept_cid, parent_opt in *. destruct (c_parent f) as [p|] eqn:Ep.
-  - rewrite assoc_filter by assumption. destruct (assoc es c) as [v|] eqn:Ea; [|reflexivity].
-    cbn [fst snd]. destruct (lookup_cid p c =? v) eqn:E3; cbn [negb]; [|reflexivity].
-    apply N.eqb_eq in E3. unfold lookup_cid in E3.
-    destruct (lookup_cid_opt p c) as [w|] eqn:Eo; [assumption|].
-    apply (Hsafe p Ep c v); auto. apply assoc_in. assumption.
-  - destruct (assoc es c); reflexivity.
-Qed.
-
-(* without the side condition only the mapped-or-chain part survives: the entry may be shadowed *)
-Lemma setmapping_lookup_bytes_weak csr f es c :
-  NoDup (map fst es) -> wf_entries N es -> cid_ok es ->
-  lookup_cid_opt (set_mapping_bytes csr f es) c =
-  match assoc es c with
-  | Some v => match c_parent f with
-              | Some p => if lookup_cid p c =? v then lookup_cid_opt p c else Some v
-              | None => Some v
-              end
-  | None => parent_opt f c
-  end.
-Proof.
-  intros Hnd Hwf Hok. rewrite lookup_cid_opt_set_mapping_kept by assumption.
-  unfold kept_cid, parent_opt. destruct (c_parent f) as [p|] eqn:Ep.
-  - rewrite assoc_filter by assumption. destruct (assoc es c) as [v|]; [|reflexivity].
-    cbn [fst snd]. destruct (lookup_cid p c =? v); reflexivity.
-  - destruct (assoc es c); reflexivity.
+  rewrite End. destruct (assoc es c); reflexivity.
 Qed.
 
 Lemma agree_set_mapping csr f es :
